@@ -100,30 +100,30 @@ Example C08_fastpath_nonstring_rhs_regression :
             observe (eval_top impl_flags ex_tree IRoot e) = ONodes [7].
 Proof. eexists. exact fastpath_nonstring_rhs_regression. Qed.
 
-(* conversions: strtold() = XPath number() on plain numerals (optional minus, digits, points) *)
-Theorem C08_s2n_impl_eq_spec_plain :
-  forall prec (neg : bool) body, forallb num_char body = true ->
-  impl_s2n prec ((if neg then [45] else []) ++ body) = spec_s2n prec ((if neg then [45] else []) ++ body).
-Proof. exact s2n_impl_eq_spec_plain. Qed.
-Print Assumptions C08_s2n_impl_eq_spec_plain.
+(* conversions. cast_string_to_number() (since /repo b906576: Number syntax checked, then strtold) is number() of the
+   recommendation for EVERY string, at every precision *)
+Theorem C08_s2n_impl_eq_spec :
+  forall prec s, impl_s2n prec s = spec_s2n prec s.
+Proof. exact s2n_impl_eq_spec. Qed.
+Print Assumptions C08_s2n_impl_eq_spec.
 
-Theorem C08_s2n_refuted :
-  (impl_s2n 64 (B [49; 101; 51]%Z) = x_of_Z 1000 /\ spec_s2n 53 (B [49; 101; 51]%Z) = XNaN) /\
-  (impl_s2n 64 (B [32; 53; 32]%Z) = XNaN /\ spec_s2n 53 (B [32; 53; 32]%Z) = x_of_Z 5).
-Proof. exact (conj s2n_exponent_refuted s2n_trailing_space_refuted). Qed.
-Print Assumptions C08_s2n_refuted.
+(* the former witnesses of the strtold() behaviour, now regression values: 1e3, +5, 0x10, inf, vertical tab are NaN;
+   trailing white space is accepted *)
+Example C08_s2n_regression :
+  impl_s2n 64 (B [49; 101; 51]%Z) = XNaN /\ impl_s2n 64 (B [32; 53; 32]%Z) = x_of_Z 5.
+Proof. pose proof s2n_regression as H. split; [apply H|apply H]. Qed.
 
-(* number -> string: integers in the long long range as the recommendation says; fractions get one digit *)
-Theorem C08_n2s_impl_eq_spec_int :
-  forall prec neg z, (0 <= z <= ll_max)%Z ->
-  impl_n2s (XFin neg (inject_Z z)) = spec_n2s prec (XFin neg (inject_Z z)).
-Proof. exact n2s_impl_eq_spec_int. Qed.
-Print Assumptions C08_n2s_impl_eq_spec_int.
+(* number -> string: lyxp_set_cast() (since /repo 54bf5db: shortest decimal that strtold() reads back) is string() of
+   the recommendation, read at the precision of the code, for EVERY long double ([x_ld]: a fixed point of the rounding
+   to 64 bits): NaN, infinities, both zeros, integers in and beyond the long long range, fractions *)
+Theorem C08_n2s_impl_eq_spec :
+  forall x, x_ld x -> impl_n2s x = spec_n2s 64 x.
+Proof. exact n2s_impl_eq_spec. Qed.
+Print Assumptions C08_n2s_impl_eq_spec.
 
-Theorem C08_n2s_refuted :
-  impl_n2s (XFin false (1 # 4)) = B [48; 46; 50]%Z /\ spec_n2s 53 (XFin false (1 # 4)) = B [48; 46; 50; 53]%Z.
-Proof. exact n2s_quarter_refuted. Qed.
-Print Assumptions C08_n2s_refuted.
+Example C08_n2s_regression :
+  impl_n2s (XFin false (1 # 4)) = B [48; 46; 50; 53]%Z.
+Proof. apply n2s_regression. Qed.
 
 (* floor() as coded (floorl() of the signed value since /repo commit 0327904) is the floor of the recommendation for
    ALL numbers (well formed: the magnitude is not negative): negative and positive, integral or not, both zeros,
